@@ -327,7 +327,7 @@ def bound_args(c, g, explicit_self=False):
 
 
 def arg_names(ctx, rule, callee_ok, exceptions, min_sites, P=None):
-    P = P or ctx.P
+    P = P or (ctx.Pall if ctx.tier == 'thorough' else ctx.P)
     res = Result(rule, 'an argument spelled like a parameter of the function '
                  'it is passed to (x, self.x) is bound to that parameter: '
                  'no swapped or shifted arguments')
@@ -399,7 +399,7 @@ def arg_forward(ctx, rule, min_sites, P=None):
     """a constructor parameter that the base-class constructor also has is
     handed on to it (by position or keyword): a parameter accepted by the
     subclass and silently dropped makes the base class use its default."""
-    P = P or ctx.P
+    P = P or (ctx.Pall if ctx.tier == 'thorough' else ctx.P)
     res = Result(rule, 'every constructor parameter that the base-class '
                  'constructor also declares is forwarded in the base '
                  'constructor call')
